@@ -44,6 +44,15 @@ Proof. intros digest H deq bs basis src Hp Hu Hn Hcf Hb.
   exact (delta_wellformed digest H deq bs Hp Hu basis src Hn Hcf Hb). Qed.
 Print Assumptions C01_delta_wellformed.
 
+(** The execution-friendly scan that is extracted and run against the
+    implementation computes exactly the delta the theorems above are about. *)
+Theorem C01_executed_model_is_the_model :
+  forall (digest : Type) (H : list Z -> digest) (deq : forall a b : digest, {a = b} + {a <> b})
+         (bs : nat) (sg : signature digest) (src : list Z),
+  compute_delta_fast digest H deq bs sg src = compute_delta digest H deq bs sg src.
+Proof. intros digest H deq bs sg src. exact (compute_delta_fast_eq digest H deq bs sg src). Qed.
+Print Assumptions C01_executed_model_is_the_model.
+
 (** Non-vacuity: with H := identity the hypotheses hold and the model computes a
     delta with a copy for a concrete pair. *)
 Example C01_nonvacuous :
